@@ -194,6 +194,15 @@ inline void make_general(Problem& p, const std::string& gfam, uint64_t mseed, do
         if (n % 2) D(n - 1, n - 1) = -3.0;
         Mat Q = rand_orth(n, r); A = Q * D * Q.transpose();
     }
+    else if (gfam == "gblock")
+    {   // normal, block diagonal with a leading block of size max(2, n/3): vectors supported on the leading coordinates span an invariant subspace
+        const int kb = std::max(2, n / 3);
+        Mat D = Mat::Zero(n, n);
+        for (int i = 0; i + 1 < n; i += 2) { if (i + 1 == kb) { D(i, i) = -2.0 - i; i--; continue; } double a = 1.0 + 0.7 * i, b = 0.5 + 0.3 * i; D(i, i) = a; D(i + 1, i + 1) = a; D(i, i + 1) = b; D(i + 1, i) = -b; }
+        if (D(n - 1, n - 1) == 0.0 && (n < 2 || D(n - 1, n - 2) == 0.0)) D(n - 1, n - 1) = -3.5 - n;
+        Mat Q = Mat::Zero(n, n); Q.topLeftCorner(kb, kb) = rand_orth(kb, r); Q.bottomRightCorner(n - kb, n - kb) = rand_orth(n - kb, r);
+        A = Q * D * Q.transpose();
+    }
     else if (gfam == "gtriangular") { for (int i = 0; i < n; i++) { A(i, i) = 1.0 + i; for (int j = i + 1; j < n; j++) A(i, j) = 0.3 * r.sym(); } }
     else if (gfam == "gskew") { for (int i = 0; i < n; i++) for (int j = 0; j < i; j++) { double v = r.sym() + (i == j + 1 ? 1.0 + j : 0.0); A(i, j) = v; A(j, i) = -v; } }
     else if (gfam == "gperm") { for (int i = 0; i < n; i++) A((i + 1) % n, i) = 1.0; }
@@ -555,12 +564,17 @@ inline uint64_t hash_mat(const CMat& m)
     return h;
 }
 
-// start vectors: "r<seed>" random, "e<k>" k-th eigenvector of A (symmetric) , "s<k>" sum of two eigenvectors (invariant subspace)
+// start vectors: "r<seed>" random, "b<seed>" random on the leading max(2, n/3) coordinates, "e<k>" k-th eigenvector of A (symmetric) , "s<k>" sum of two eigenvectors (invariant subspace)
 inline CVec start_vector(const IRunner& r, const std::string& spec)
 {
     const int n = r.prob.n; CVec v(n);
     if (spec.size() && spec[0] == 'r') { Rng g(std::stoull(spec.substr(1))); for (int i = 0; i < n; i++) v[i] = r.complex_scalar() ? cd(g.sym(), g.sym()) : cd(g.sym(), 0); return v; }
     if (spec == "zero") { v.setZero(); return v; }
+    if (spec.size() && spec[0] == 'b')
+    {   // supported on the leading max(2, n/3) coordinates: an invariant subspace of the block-diagonal families
+        Rng g(std::stoull(spec.substr(1)) + 77); const int kb = std::max(2, n / 3); v.setZero();
+        for (int i = 0; i < kb; i++) v[i] = r.complex_scalar() ? cd(g.sym(), g.sym()) : cd(g.sym(), 0); return v;
+    }
     if (r.complex_scalar())
     {
         Eigen::SelfAdjointEigenSolver<CMat> es(r.prob.Ac); int k = std::stoi(spec.substr(1)) % n;
